@@ -295,6 +295,14 @@ static void c05_at(const Civil& base, hz::Result& r, const char* era_cls) {
         continue;
       }
       r.cls(std::string("C05:add:") + kAlign[a] + ":" + era_cls);
+      // the other spellings of the same step: a += n, n + a
+      {
+        T y2 = x; y2 += n;
+        const T y3 = n + x;
+        r.count("evaluations", 2);
+        if (civil_of(y2) != want || civil_of(y3) != want)
+          r.violation(std::string("C05:add-spelling:") + kAlign[a], std::string(kAlign[a]) + " " + ref::civil_str(ab) + ": a += n gives " + ref::civil_str(civil_of(y2)) + ", n + a gives " + ref::civil_str(civil_of(y3)) + ", expected " + ref::civil_str(want) + " for n=" + nb, ra);
+      }
       // (a + n) - a == n ; a < b iff a - b < 0
       const long long d = y - x;
       r.count("evaluations");
@@ -328,6 +336,10 @@ static void c05_at(const Civil& base, hz::Result& r, const char* era_cls) {
       if (civil_of(z) != wantm)
         r.violation(std::string("C05:sub:") + kAlign[a], std::string(kAlign[a]) + " " + ref::civil_str(ab) + " - " + nb + " = " + ref::civil_str(civil_of(z)) + " expected " + ref::civil_str(wantm), ra);
       else r.cls(std::string("C05:sub:") + kAlign[a] + ":" + era_cls);
+      T z2 = x; z2 -= n;
+      r.count("evaluations");
+      if (civil_of(z2) != wantm)
+        r.violation(std::string("C05:sub-spelling:") + kAlign[a], std::string(kAlign[a]) + " " + ref::civil_str(ab) + ": a -= " + nb + " gives " + ref::civil_str(civil_of(z2)) + " expected " + ref::civil_str(wantm), ra);
     }
   }
   // ++ / -- / += / -=
